@@ -14,6 +14,7 @@
       re-groups, which may move entries between blocks (the reference of group()).
     - Order-changing operations are characterised exactly: reverse, sort (a permutation of the
       blocks, ordered by number; modelled for pairwise distinct numbers), pop, insert.
+    - re-parse ([C17_reparse]) is proved outright for Acls of remarks and reader-built ACEs.
     - group() depends on the rule list only, not on identifiers, notes or the history
       ([C17_group_erase]): the buckets of the erased entries are the erased buckets.
     - History independence: [Ops.step] is a function of the modelled state; what is not visible
@@ -23,7 +24,7 @@
     delete_shadow is owned by C04 (certificate there); here it is covered by correspondence and
     by the reference prediction of the oracle. *)
 From V Require Import base.Prelude spec.AceSem spec.AclSem model.Cfg model.AceText model.AclText model.Shading
-  model.Ops proofs.DeleteShadowProofs proofs.PlatformProofs proofs.OpsProofs proofs.HistoryProofs.
+  model.Ops proofs.DeleteShadowProofs proofs.PlatformProofs proofs.OpsProofs proofs.HistoryProofs proofs.AclFixProofs proofs.ReparseProofs.
 From Coq Require Import Permutation Sorting.Sorted.
 Local Open Scope N_scope.
 
@@ -72,6 +73,22 @@ Proof. exact regroup_sound. Qed.
 Theorem C17_group_keeps : forall gby old ls y,
   In y ls -> is_head gby y = false -> In y (flat (regroup gby old ls)).
 Proof. exact regroup_keeps. Qed.
+
+
+(** re-creating the Acl from its own text needs no certificate when the entries are remarks and
+    reader-built extended ACEs ([item_built], C06): for EVERY such Acl, grouped or flat, the new
+    object is flat, has the same configuration and name, consists of fresh objects only, has the
+    same entries in the same order, prints the same lines and decides every packet alike *)
+Theorem C17_reparse : forall a,
+  (plat (o_cfg a) = Ios \/ plat (o_cfg a) = Nxos) ->
+  Forall (fun l => item_built (o_cfg a) (leaf_aitem l)) (flat (o_tops a)) ->
+  exists a', op_reparse a = Ok a'
+    /\ o_cfg a' = o_cfg a /\ o_name a' = o_name a /\ o_gby a' = ""%string
+    /\ map leaf_aitem (flat (o_tops a')) = map leaf_aitem (flat (o_tops a))
+    /\ Forall (fun l => leaf_id l = 0 /\ leaf_note l = 0) (flat (o_tops a'))
+    /\ acl_lines a' = acl_lines a
+    /\ forall k, acl_decide a' k = acl_decide a k.
+Proof. exact reparse_built. Qed.
 
 (** non-vacuity: a seven-step history of meaning-preserving operations on an IOS list with a
     two-port entry passes every certificate, so the theorem applies to it *)
